@@ -92,6 +92,7 @@ type Line struct {
 }
 
 type run struct {
+	lastNonce []byte
 	w   *world.World
 	cfg Cfg
 }
@@ -196,6 +197,17 @@ func Run(bh Behaviour, seed int64) ([]Line, error) {
 		defer fs.Cleanup(context.Background())
 		wc.Inner = fs
 	}
+	var shared *world.SwitchStorage
+	if bh.Cfg.BE == "file2" {
+		// two handles (two processes) on one directory: every step of the behaviour runs through one of them
+		sw2, cleanup, err := world.NewSwitchStorage(2)
+		if err != nil {
+			return nil, err
+		}
+		defer cleanup()
+		shared = sw2
+		wc.Inner = sw2
+	}
 	w, err := world.New(wc)
 	if err != nil {
 		return nil, err
@@ -209,7 +221,7 @@ func Run(bh Behaviour, seed int64) ([]Line, error) {
 		return nil, fmt.Errorf("init roots: %w", err)
 	}
 	r := &run{w: w, cfg: bh.Cfg}
-	cfgMap := map[string]any{"sw": bh.Cfg.SW, "nidl": bh.Cfg.Nidl, "so": bh.Cfg.SO, "rmerr": bh.Cfg.BE == "file"}
+	cfgMap := map[string]any{"sw": bh.Cfg.SW, "nidl": bh.Cfg.Nidl, "so": bh.Cfg.SO, "rmerr": bh.Cfg.BE == "file" || bh.Cfg.BE == "file2"}
 	var lines []Line
 	for i, op := range bh.Ops {
 		ln := Line{Tr: bh.Id, I: i + 1, Cfg: cfgMap, Op: op, Obs: map[string]any{}}
@@ -222,6 +234,11 @@ func Run(bh Behaviour, seed int64) ([]Line, error) {
 					ln.Panic = fmt.Sprint(p)
 				}
 			}()
+			if shared != nil {
+				// which of the two handles serves this step must not matter
+				shared.Cur = int(world.Uint64Seed(seed, fmt.Sprintf("%s/%d", bh.Id, i)) & 1)
+				defer func() { shared.Cur = -1 }()
+			}
 			r.step(op, &ln)
 		}()
 		ln.Writes = w.Rec.Writes(mark)
@@ -420,6 +437,10 @@ func (r *run) step(op map[string]any, ln *Line) {
 				extra = append(extra, nodeenrollment.WithMaximumServerLedActivationTokenLifetime(t0.Sub(w.AgeBoundary)))
 			}
 		}
+		if b(op, "skipst") {
+			// the caller asks that nothing be stored on its behalf
+			extra = append(extra, nodeenrollment.WithSkipStorage(true))
+		}
 		resp, err := registration.FetchNodeCredentials(w.Ctx, w.Store, req, w.Opts(extra...)...)
 		if time.Since(t0) > ageMargin/2 && s(op, "life") == "mid" {
 			ln.Unc = true
@@ -451,7 +472,7 @@ func (r *run) step(op map[string]any, ln *Line) {
 			return
 		}
 		want := "inmem"
-		if r.cfg.BE == "file" {
+		if r.cfg.BE == "file" || r.cfg.BE == "file2" {
 			want = "file"
 		}
 		if s(op, "be") != want {
@@ -777,6 +798,12 @@ func (r *run) genCerts(op map[string]any, ln *Line) {
 	r.setOrder(strs(op, "order"))
 	nonce := make([]byte, nodeenrollment.NonceSize)
 	rand.Read(nonce)
+	// reuse: the nonce (and so its signature) of the previous request of this behaviour is presented again - a nonce
+	// travels in clear in the ClientHello - possibly with another key named, another state or other signatures
+	if b(op, "reuse") && r.lastNonce != nil {
+		nonce = r.lastNonce
+	}
+	r.lastNonce = nonce
 	req := &types.GenerateServerCertificatesRequest{
 		CertificatePublicKeyPkix: w.EnsureCertKey(s(op, "k")).Pkix,
 		Nonce:                    nonce,
